@@ -195,6 +195,9 @@ func (E *Engine) atLoopHead(m *Machine, f *Frame, l *Loop, from, head *ssa.Basic
 			continue
 		}
 		m.G[g] = E.D.Fresh(sanitize(g)+"_"+sanitize(lname), old.Sort)
+		if g == "bank" {
+			m.bankNonNeg(m.G[g])
+		}
 	}
 	for _, ins := range head.Instrs {
 		ph, ok := ins.(*ssa.Phi)
